@@ -29,7 +29,7 @@ theorem read_site_shape :
   refine ⟨fun f k => ?_, fun f k => ?_, by decide, by decide⟩ <;> rfl
 
 /-- For every body — read sites under branches, in loops that may run zero
-times, after them — every choice of run-time conditions and loop counts and
+times, before an early `return`, after them — every choice of run-time conditions and loop counts and
 every state of the temporaries: the body lowered the way the source lowers
 read sites is worth exactly what the property demands, each read site the one
 stored value of its constant. (Both statement lists; the lowering never fails.) -/
@@ -62,6 +62,10 @@ theorem reads_observe_store (store : Nat → Nat) (cond : Nat → Bool) (count :
       intro f
       obtain ⟨cb, f1, hb⟩ := ih f
       exact ⟨.loop c cb, f1, by simp [lowerBody, hb, bind, Option.bind, pure]⟩
+    | ret r ih =>
+      intro f
+      obtain ⟨cr, f1, hr⟩ := ih f
+      exact ⟨.ret cr, f1, by simp [lowerBody, hr, bind, Option.bind, pure]⟩
   obtain ⟨h1, h2, _, _⟩ := read_site_shape
   constructor
   · obtain ⟨c, f', h⟩ := total _ (fun f k => ⟨_, h1 f k⟩) b f
@@ -94,14 +98,23 @@ in lowering order) is worth `store 7` short on the path around the branch —
 example :
     let code : Code := .add (.ite 0 (.site (.viaTemp 0 7)) (.lit 0)) (.site (.reuse 0))
     let body : Body := .add (.ite 0 (.read 7) (.lit 0)) (.read 7)
-    (code.run (fun _ => 42) (fun _ => false) (fun _ => 0) []).1 = 0 ∧
-    body.spec (fun _ => 42) (fun _ => false) (fun _ => 0) = 42 ∧
-    (code.run (fun _ => 42) (fun _ => true) (fun _ => 0) []).1 = 84 := by decide
+    (code.run (fun _ => 42) (fun _ => false) (fun _ => 0) []).1 = .val 0 ∧
+    body.spec (fun _ => 42) (fun _ => false) (fun _ => 0) = .val 42 ∧
+    (code.run (fun _ => 42) (fun _ => true) (fun _ => 0) []).1 = .val 84 := by decide
 /-- … and a loop that runs zero times before the second site -/
 example :
     let code : Code := .add (.loop 0 (.site (.viaTemp 0 7))) (.site (.reuse 0))
-    (code.run (fun _ => 5) (fun _ => false) (fun _ => 0) []).1 = 0 ∧
-    (code.run (fun _ => 5) (fun _ => false) (fun _ => 2) []).1 = 15 := by decide
+    (code.run (fun _ => 5) (fun _ => false) (fun _ => 0) []).1 = .val 0 ∧
+    (code.run (fun _ => 5) (fun _ => false) (fun _ => 2) []).1 = .val 15 := by decide
+/-- … and an early return: `if c0 { return K7 + 7 }; 100 + K7` (a read before an
+early return, another one on the path around it) -/
+example :
+    let code : Code := .add (.ite 0 (.ret (.add (.site (.viaTemp 0 7)) (.lit 7))) (.lit 0)) (.add (.lit 100) (.site (.reuse 0)))
+    let body : Body := .add (.ite 0 (.ret (.add (.read 7) (.lit 7))) (.lit 0)) (.add (.lit 100) (.read 7))
+    (code.run (fun _ => 42) (fun _ => true) (fun _ => 0) []).1 = .ret 49 ∧
+    body.spec (fun _ => 42) (fun _ => true) (fun _ => 0) = .ret 49 ∧
+    (code.run (fun _ => 42) (fun _ => false) (fun _ => 0) []).1 = .val 100 ∧
+    body.spec (fun _ => 42) (fun _ => false) (fun _ => 0) = .val 142 := by decide
 example : lowerSite [.tempFromConstant] 0 7 = none := by decide
 example : lowerSite [] 0 7 = none := by decide
 
